@@ -49,17 +49,22 @@ def lin_add(a, b, sign=1):
 
 
 def run(P, rep, tier):
-    rep.explanation = (
-        'The read-ahead helper (found through the call graph: the reader function that both reads and seeks) is 25 lines; '
-        'independence from block size and alignment follows by induction on its iterations from premises that are checked '
-        'on every abstract path: R1 in the delimiter-found branch the kept slice is chunk[:K] with K = i+1 for the tested '
-        'find() result i, and the give-back seek(D, SEEK_CUR) satisfies D + len(chunk) - K == 0 as linear forms; R2 in the '
-        'not-found branch the whole chunk is appended and nothing is given back; R3 end of file is signalled only by an '
-        'empty read and then nothing is given back; R4 every call site passes a one-byte delimiter (a longer one could '
-        'straddle blocks); R5 the block-size parameter is used only as the size of read(); R6 content is read from the same '
-        'stream directly and the reader keeps no attribute holding read-ahead bytes.')
-    rep.undecided = 'none of the premises; the induction itself is a written argument (DESIGN.md), not machine-checked'
-    rep.trusted_base += ['binary stream read/seek semantics; bytes.find / slicing']
+    _run(P, rep, tier, 'C17')
+
+
+def _run(P, rep, tier, prefix):
+    if prefix == 'C17':
+        rep.explanation = (
+            'The read-ahead helper (found through the call graph: the reader function that both reads and seeks) is 25 lines; '
+            'independence from block size and alignment follows by induction on its iterations from premises that are checked '
+            'on every abstract path: R1 in the delimiter-found branch the kept slice is chunk[:K] with K = i+1 for the tested '
+            'find() result i, and the give-back seek(D, SEEK_CUR) satisfies D + len(chunk) - K == 0 as linear forms; R2 in the '
+            'not-found branch the whole chunk is appended and nothing is given back; R3 end of file is signalled only by an '
+            'empty read and then nothing is given back; R4 every call site passes a one-byte delimiter (a longer one could '
+            'straddle blocks); R5 the block-size parameter is used only as the size of read(); R6 content is read from the same '
+            'stream directly and the reader keeps no attribute holding read-ahead bytes.')
+        rep.undecided = 'none of the premises; the induction itself is a written argument (DESIGN.md), not machine-checked'
+        rep.trusted_base += ['binary stream read/seek semantics; bytes.find / slicing']
     R = ReaderRoles(P)
     ra = R.readahead_fn
     if ra is None:
@@ -81,9 +86,9 @@ def run(P, rep, tier):
             kw[params[2]] = Unk('chunk_size', kinds=['int'], src=('param', params[2]))
             kw[params[2]].facts.add('>=1')
         return I.call_function(ra, args, kw, None, self_cls=R.cls), st
-    r1 = rep.rule('C17-R1', 'found branch: kept = chunk[:i+1], give-back seek offset + len(chunk) - kept == 0', reference=1)
-    r2 = rep.rule('C17-R2', 'not-found branch: whole chunk appended, no seek', reference=1)
-    r3 = rep.rule('C17-R3', 'EOF is signalled only by an empty read; nothing is given back then', reference=1)
+    r1 = rep.rule(prefix + '-R1', 'found branch: kept = chunk[:i+1], give-back seek offset + len(chunk) - kept == 0', reference=1)
+    r2 = rep.rule(prefix + '-R2', 'not-found branch: whole chunk appended, no seek', reference=1)
+    r3 = rep.rule(prefix + '-R3', 'EOF is signalled only by an empty read; nothing is given back then', reference=1)
     found_ok = found_bad = 0
     nf_ok = nf_bad = 0
     eof_ok = eof_bad = 0
@@ -212,7 +217,7 @@ def run(P, rep, tier):
         raise AnalysisError('no EOF path observed in %s' % ra.short)
 
     # ---- R4 one-byte delimiter at every call site -----------------------------------
-    r4 = rep.rule('C17-R4', 'every call site passes a one-byte constant delimiter', reference=1)
+    r4 = rep.rule(prefix + '-R4', 'every call site passes a one-byte constant delimiter', reference=1)
     sites = 0
     for f in R.funcs:
         for n in walk_no_nested(f.node):
@@ -235,7 +240,7 @@ def run(P, rep, tier):
     rep.floor(r4, 1)
 
     # ---- R5 block size used only as read size ----------------------------------------
-    r5 = rep.rule('C17-R5', 'the block-size parameter is used only as the argument of read()', reference=1)
+    r5 = rep.rule(prefix + '-R5', 'the block-size parameter is used only as the argument of read()', reference=1)
     if len(params) > 2:
         bs = params[2]
         uses = [n for n in walk_no_nested(ra.node) if isinstance(n, ast.Name) and n.id == bs and isinstance(n.ctx, ast.Load)]
@@ -256,7 +261,7 @@ def run(P, rep, tier):
         rep.ok(r5, ra.short, 'no block-size parameter')
 
     # ---- R6 single consumer, no private buffer ------------------------------------------
-    r6 = rep.rule('C17-R6', 'content is read from the same stream directly; no reader attribute holds read-ahead bytes', reference=2)
+    r6 = rep.rule(prefix + '-R6', 'content is read from the same stream directly; no reader attribute holds read-ahead bytes', reference=2)
     if R.content_fn is None:
         raise AnalysisError('content-reading function not identified')
     consumers = [(f.short, [m for _, m in ops]) for f, ops in R.readers]
